@@ -1,7 +1,9 @@
 // Package simsync replaces package sync in relic sources.  Mutex and RWMutex
-// become cooperative (every acquisition is a scheduling point and a parked
-// task never holds a lock another task is really blocked on); everything else
-// is the real thing.
+// become cooperative under a simulator world: every acquisition is a
+// scheduling point, and a task that finds the lock taken blocks *durably* (on a
+// channel of the bubble) until some Unlock, so that the virtual clock can
+// advance while a lock holder waits on a timer.  Everything else is the real
+// thing.  With no world installed they are plain sync.Mutex / sync.RWMutex.
 package simsync
 
 import (
@@ -24,63 +26,97 @@ func OnceFunc(f func()) func()                                { return sync.Once
 func OnceValue[T any](f func() T) func() T                    { return sync.OnceValue(f) }
 func OnceValues[T1, T2 any](f func() (T1, T2)) func() (T1, T2) { return sync.OnceValues(f) }
 
-type Mutex struct{ m sync.Mutex }
+// waitq is the set of tasks waiting for some unlock.
+type waitq struct {
+	mu sync.Mutex
+	q  []chan struct{}
+}
+
+func (w *waitq) add() chan struct{} {
+	ch := make(chan struct{})
+	w.mu.Lock()
+	w.q = append(w.q, ch)
+	w.mu.Unlock()
+	return ch
+}
+
+func (w *waitq) wakeAll() {
+	w.mu.Lock()
+	q := w.q
+	w.q = nil
+	w.mu.Unlock()
+	for _, ch := range q {
+		safeClose(ch)
+	}
+}
+
+// a waiter of an earlier, abandoned run may have left its channel behind; it
+// belongs to a dead bubble and closing it from another one panics
+func safeClose(ch chan struct{}) {
+	defer func() { recover() }()
+	close(ch)
+}
+
+// acquire implements the cooperative protocol around a try-function.
+func acquire(w simhook.World, wq *waitq, try func() bool, block func(), tag string) {
+	if w == nil || !w.Yield(tag) {
+		block()
+		return
+	}
+	for {
+		if try() {
+			return
+		}
+		ch := wq.add()
+		if try() { // an unlock may have slipped in before we queued
+			return
+		}
+		<-ch
+		if !w.Yield(tag + "-retry") {
+			block()
+			return
+		}
+	}
+}
+
+type Mutex struct {
+	m  sync.Mutex
+	wq waitq
+}
 
 func (m *Mutex) Lock() {
-	w := simhook.W()
-	if w == nil {
-		m.m.Lock()
-		return
-	}
-	for {
-		if !w.Yield("lock") {
-			m.m.Lock()
-			return
-		}
-		if m.m.TryLock() {
-			return
-		}
-	}
+	acquire(simhook.W(), &m.wq, m.m.TryLock, m.m.Lock, "lock")
 }
 func (m *Mutex) TryLock() bool { return m.m.TryLock() }
-func (m *Mutex) Unlock()       { m.m.Unlock() }
+func (m *Mutex) Unlock() {
+	m.m.Unlock()
+	m.wq.wakeAll()
+}
 
-type RWMutex struct{ m sync.RWMutex }
+type RWMutex struct {
+	m  sync.RWMutex
+	wq waitq
+}
 
 func (m *RWMutex) Lock() {
-	w := simhook.W()
-	if w == nil {
-		m.m.Lock()
-		return
-	}
-	for {
-		if !w.Yield("lock") {
-			m.m.Lock()
-			return
-		}
-		if m.m.TryLock() {
-			return
-		}
-	}
+	acquire(simhook.W(), &m.wq, m.m.TryLock, m.m.Lock, "lock")
 }
 func (m *RWMutex) RLock() {
-	w := simhook.W()
-	if w == nil {
-		m.m.RLock()
-		return
-	}
-	for {
-		if !w.Yield("rlock") {
-			m.m.RLock()
-			return
-		}
-		if m.m.TryRLock() {
-			return
-		}
-	}
+	acquire(simhook.W(), &m.wq, m.m.TryRLock, m.m.RLock, "rlock")
 }
-func (m *RWMutex) TryLock() bool   { return m.m.TryLock() }
-func (m *RWMutex) TryRLock() bool  { return m.m.TryRLock() }
-func (m *RWMutex) Unlock()         { m.m.Unlock() }
-func (m *RWMutex) RUnlock()        { m.m.RUnlock() }
-func (m *RWMutex) RLocker() Locker { return m.m.RLocker() }
+func (m *RWMutex) TryLock() bool  { return m.m.TryLock() }
+func (m *RWMutex) TryRLock() bool { return m.m.TryRLock() }
+func (m *RWMutex) Unlock() {
+	m.m.Unlock()
+	m.wq.wakeAll()
+}
+func (m *RWMutex) RUnlock() {
+	m.m.RUnlock()
+	m.wq.wakeAll()
+}
+func (m *RWMutex) RLocker() Locker { return (*rlocker)(m) }
+
+type rlocker RWMutex
+
+func (r *rlocker) Lock()   { (*RWMutex)(r).RLock() }
+func (r *rlocker) Unlock() { (*RWMutex)(r).RUnlock() }
